@@ -13,7 +13,8 @@ BINOPS = {"add": "OAdd", "sub": "OSub", "mul": "OMul", "rmul": "ORmul", "matmul"
           "rmatmul": "ORmatmul", "div": "ODiv", "rdiv": "ORdiv", "pow": "OPow", "rpow": "ORpow"}
 PYOP = {"add": lambda a, b: a + b, "sub": lambda a, b: a - b, "mul": lambda a, b: a * b,
         "div": lambda a, b: a / b, "pow": lambda a, b: a ** b, "matmul": lambda a, b: a @ b}
-SPARSE_TYPES = ["csr_matrix", "csc_matrix", "coo_matrix", "csr_array", "csc_array", "coo_array"]
+SPARSE_TYPES = ["csr_matrix", "csc_matrix", "coo_matrix", "csr_array", "csc_array", "coo_array",
+                "bsr_matrix", "bsr_array", "dia_matrix", "dia_array"]
 DT = {"float64": 1, "int64": 2, "int32": 3}
 KNOWN_EVAL = "evaluate-node-key-omits-function-and-arity"
 
@@ -209,6 +210,8 @@ def ser(op):
             props = [m.data, m.indices, m.indptr]
         elif ty[:3] == "coo":
             props = [m.data, m.row, m.col]
+        elif ty[:3] == "dia":
+            props = [m.data, m.offsets]
         else:
             raise ValueError(ty)
         return ["sparse", ty, [int(n) for n in m.shape], [ser_buf(p) for p in props]]
@@ -531,7 +534,10 @@ def mutate_leaf(rng, s):
         if r < 0.3:
             s["fmt"] = rng.choice([f for f in SPARSE_TYPES if f != s["fmt"]])
         elif r < 0.5:
-            s["shape"] = [s["shape"][0] + rng.choice([0, 1]), s["shape"][1] + 1]
+            # the shape ONLY (empty trailing rows and / or columns): for csc (csr) the stored
+            # data / indices / indptr stay identical when rows (columns) are appended
+            dr, dc = rng.choice([(1, 0), (0, 1), (1, 1), (3, 0), (0, 2)])
+            s["shape"] = [s["shape"][0] + dr, s["shape"][1] + dc]
         elif s["entries"] and r < 0.8:
             s["entries"][rng.randrange(len(s["entries"]))][2] += 1
         else:
@@ -711,6 +717,20 @@ class C45(Prop):
                 ctx = gen_tree(rng, 1, False)
                 yield {"kind": "big-index", "t1": {"k": "bin", "op": "matmul", "a": a, "b": ctx},
                        "t2": {"k": "bin", "op": "matmul", "a": b, "b": ctx}}
+                continue
+            if nbig + 21 <= c < nbig + 21 + 2 * len(SPARSE_TYPES):
+                # sparse leaves in every storage format that differ ONLY in shape: empty trailing
+                # rows, resp. columns (identical stored arrays for csc, resp. csr)
+                j = c - nbig - 21
+                fmt, rows = SPARSE_TYPES[j // 2], j % 2 == 0
+                ent = [[0, 0, 1.0], [1, 0, 2.0], [1, 2, -1.0], [3, 1, 0.5]]
+                a = {"k": "sparse", "fmt": fmt, "shape": [4, 4], "entries": ent}
+                b = dict(a, shape=[7, 4] if rows else [4, 6])
+                if rng.random() < 0.5:
+                    x = {"k": "var", "name": "p", "dom": 0}
+                    a, b = ({"k": "bin", "op": "matmul", "a": a, "b": x},
+                            {"k": "bin", "op": "matmul", "a": b, "b": x})
+                yield {"kind": "sparse-shape-only", "t1": a, "t2": b}
                 continue
             if nbig + 19 <= c < nbig + 21:
                 # known finding: a composite that was hashed keeps its key when a Scalar below it
